@@ -19,9 +19,11 @@ def run(ctx):
     if ctx.replay:
         open(cases, "w").write(ctx.replay["case_record"]["line"] + "\n")
     else:
-        cfg = "Range_quick.cfg" if ctx.tier == "quick" else "Range_thorough.cfg"
-        ctx.tlc("sem", "Range", cfg, cases_path=cases, timeout_s=1800,
-                workers=min(8, int(os.environ.get("VERIF_TLC_WORKERS") or 8)))
+        # main grid with decimal literals / identifiers / calls, then a reduced grid for the other literal spellings
+        cfgs = ("Range_quick.cfg", "Range_quick2.cfg") if ctx.tier == "quick" else ("Range_thorough.cfg", "Range_thorough2.cfg")
+        for cfg in cfgs:
+            ctx.tlc("sem", "Range", cfg, cases_path=cases, timeout_s=1800,
+                    workers=min(8, int(os.environ.get("VERIF_TLC_WORKERS") or 8)))
     h = ctx.build_harness("semh")
     res = ctx.run_harness(h, ["range"], cases, timeout_s=7000)
     ctx.tally(res, cases_path=cases)
@@ -29,7 +31,7 @@ def run(ctx):
     ctx.disagreements_checked = int(ctx.extra.get("compared_with_model", 0))
     ctx.exhaustive = True
     ctx.rule = ("every (start, end, step) with start,end in -Span..Span and step in -KMax..KMax\\{0}, plus the "
-                "forms with omitted start and/or step, x operand spelling (literal, identifier, call) x context "
+                "forms with omitted start and/or step, x operand spelling (decimal literal, identifier, call; on a reduced grid also hex / 0o octal / binary / digit-separator literals) x context "
                 "(for-in, for-in+if, for := range, for = range, for range, bare for, list comprehension, "
                 "comprehension+if); distinct/non-trivial = distinct (context, spelling, operands) whose denoted "
                 "sequence is non-empty, plus one key per (context, spelling, omitted forms, sign) for empty ones")
